@@ -49,6 +49,14 @@ CHECKS = [
              "original in value, Jacobian, adjoint Jacobian and metric block; make_partial_var has zero adjoint Jacobian on "
              "constant keys; EnergyAdapter(constants=...) has no gradient component on constant keys and at() keeps them.",
      "design_ref": "DESIGN.md 4/C04"},
+    {"property_id": "C05", "engine": "A", "category": "other", "technique": TECH_A + "; the optimiser itself runs concretely on float leaf data, original and optimised operators are then compared symbolically",
+     "note": NOTE_A,
+     "text": "Bounded symbolic verification: for 18 hand-written and 40 (quick) / 400 (thorough) seeded random operator DAGs "
+             "(repeated leaves, repeated and nested repeated subtrees, shared operator objects, partially equal chains, "
+             "multi-key targets; <= 3 leaves, <= 8 inner nodes) the real optimise_operator runs unmodified and z3 refutes "
+             "for ALL inputs and directions any difference between optimised and original operator in value, Jacobian and "
+             "adjoint Jacobian; domain and target must agree; any exception of the optimiser is a violation.",
+     "design_ref": "DESIGN.md 4/C05"},
 ]
 
 ALL = [f"C{i:02d}" for i in range(1, 37)]
